@@ -446,7 +446,7 @@ class C16(Engine):
         env = dict(plan["env"])
         env["event_ceiling"] = 3000000
         req = build_request(MODE_ASM, ["naken_asm"] + plan["argv"], files, plan["faults"], env=env, cpu_ms=int(os.environ.get("VERIF_CPU_MS", "8000")), wall_ms=120000)
-        o = ex.call(req)
+        o = ex.call(req)     # (a budget overrun in the small build is re-judged on the shipped sizes: framework.Rejudging)
         res.absorb(o)
         res.digest = o.digest()
         ck = crash_key(o, tag)
